@@ -114,6 +114,20 @@ def fillerFields (d : FDesc) (supply : Ty → Nat) : Option (List (Path × Nat))
     let s := fillerCall ins (ins.map fun pt => supply pt.2)
     some ((d.leaves []).map fun pt => (pt.1, s.get pt.1))
 
+/-- `FillExisting`: the struct is not made afresh but taken from the chain; a leaf that no input
+    writes keeps what it held (`base`) -/
+def StructVal.getOr (s : StructVal) (p : Path) (base : Nat) : Nat :=
+  match s.reverse.find? (fun w => w.1.isPrefixOf p) with
+  | some w => w.2
+  | none => base
+
+def fillerFieldsExisting (d : FDesc) (supply : Ty → Nat) (base : Nat) : Option (List (Path × Nat)) :=
+  match d.inputs [] with
+  | none => none
+  | some ins =>
+    let s := fillerCall ins (ins.map fun pt => supply pt.2)
+    some ((d.leaves []).map fun pt => (pt.1, s.getOr pt.1 base))
+
 /-! ## Curry -/
 
 /-- state of the loop over the original function's parameters -/
